@@ -38,14 +38,15 @@ def main(argv=None):
     ap.add_argument("--replay", default=None,
                     help="replay file of an earlier violation: the property is re-analysed on the "
                          "current tree and the recorded construct is looked for in the report")
-    ap.add_argument("--root", default=None)
+    ap.add_argument("--root", default=None, help="analyse the package under this root instead of /repo (scratch variants)")
+    ap.add_argument("--no-write", action="store_true", help="do not write evidence / replay files (scratch variants)")
     args = ap.parse_args(argv)
     prop = args.prop.upper()
     if prop not in PROPS:
         print("ANALYSIS-ERROR unknown property %s" % prop)
         return 2
     try:
-        code, ctx = run_property(prop, args.tier, args.root)
+        code, ctx = run_property(prop, args.tier, args.root, write=not args.no_write)
         if args.replay:
             rec = json.load(open(args.replay))
             hit = [o for o in ctx.obligations if not o.ok and o.rule == rec.get("rule")
